@@ -19,6 +19,11 @@ lines = [l for l in p.stdout.splitlines() if l.strip()]
 classes = [l.strip() for l in lines if l.strip().startswith("rule=")]
 verdict = "caught" if any(l.startswith("VIOLATION") for l in lines) else ("missed" if any(l.startswith("HELD") for l in lines) else "inconclusive")
 os.makedirs(dst, exist_ok=True)
+prev = {}
+try:
+    prev = json.load(open(os.path.join(dst, "meta.json")))
+except Exception:
+    pass
 for f in os.listdir(seed):
     if os.path.isfile(os.path.join(seed, f)) and not f.startswith("FOREIGN") and f != "suite.log":
         shutil.copy(os.path.join(seed, f), os.path.join(dst, f))
@@ -35,5 +40,10 @@ meta = {
     "verdict": verdict,
     "violation_classes": classes[:20],
 }
+if "--skip-confirm" in sys.argv and prev.get("confirmation"):
+    meta["confirmation"] = prev["confirmation"]
+meta["history"] = prev.get("history", [])
+if prev.get("verdict") and prev.get("verdict") != verdict:
+    meta["history"].append({"verdict": prev["verdict"], "classes": prev.get("violation_classes", [])})
 json.dump(meta, open(os.path.join(dst, "meta.json"), "w"), indent=1)
 print(sid, "confirmed=%s" % conf.get("confirmed"), verdict, classes[:3])
